@@ -302,6 +302,7 @@ func TestVerifC13Table(t *testing.T) {
 		}
 	}
 	fmt.Fprintf(f, "N 0 n1probe %s\n", strings.Join(n1, " "))
+	fmt.Fprintf(f, "N 0 maxname %d\n", MaxNameLength)
 	for kind := 0; kind < 4; kind++ {
 		var first, rest []string
 		inFirst, inRest := [256]bool{}, [256]bool{}
